@@ -116,7 +116,7 @@ def generate(gen_dir, repo):
 
 
 def generate_to(gen_dir, repo="/repo"):
-    text, errors = generate(gen_dir, repo)
+    text, errors = eigensym.cached_generate("C11", repo, gen_dir, {"src": [r[0] for r in REQS], "gen": []}, lambda: generate(gen_dir, repo))
     eigensym.write_if_changed(os.path.join(gen_dir, "SrcEigenC11.v"), text)
     return errors
 
